@@ -25,7 +25,7 @@ Audit extension (same reference, more of the quantified domain):
     cube, 48 faces), and textured meshes (uv carried through the slicer);
   * capped slicing by TWO planes (kind "capm": the halves of the capped half of p1 by p2 add up to the exact
     volume of that half; pieces of convex solids are watertight), plane pairs with a face subset;
-  * magnitudes: the same records for meshes scaled by 2^10 / 2^-6 and translated by up to 1e4 (the harness maps
+  * magnitudes: the same records for meshes scaled by 2^10 / 2^-10 / 2^-14 and translated by up to 1e4 (the harness maps
     the results back with the exact inverse, the reference sees the lattice mesh);
   * call styles: lists / tuples / integer / float32 arrays for normals and origins, list / int32 face subsets,
     engine=None (default engine), return_faces=False, process=True, unsorted heights with a duplicate;
@@ -55,7 +55,9 @@ TOL = 1e-9
 ENGINE_MODULES = (("earcut", "mapbox_earcut"), ("triangle", "triangle"), ("manifold", "manifold3d"))
 EXTRA_NORMALS = [(1, 2, 0), (1, 1, 2), (2, -1, 1), (0, 1, -2)]
 # exact in binary floating point: power-of-two scales, integer translations (the results are mapped back exactly)
-MOVES = [(1024.0, (0, 0, 0)), (1.0 / 64.0, (0, 0, 0)), (1.0, (1000, -2000, 500)), (1.0, (10000, 10000, -10000)),
+# small absolute scales: a 2 mm and a 0.1 mm part modelled in metres (cut faces of 4e-6 and 1e-8 square units: every
+# absolute area / length threshold on the way to the cap is far above them)
+MOVES = [(2.0 ** -10, (0, 0, 0)), (2.0 ** -14, (0, 0, 0)), (1.0, (1000, -2000, 500)), (1.0, (10000, 10000, -10000)),
          (1024.0, (3, 5, -7))]
 
 
@@ -356,6 +358,10 @@ class Ctx:
 
     def __init__(self, mesh, move=None, style=0, tex=False):
         self.mesh, self.move, self.style, self.tex = mesh, move, style, tex
+        # the path module merges vertices closer than tol_path.merge = 1e-5 in absolute units: below this scale
+        # that tolerance would decide which section vertices coincide, so the Path (not the segments of mesh_plane /
+        # mesh_multiplane, not the slices and caps) is left unjudged there
+        self.path_ok = move is None or move[0] >= 2.0 ** -7
 
     def fwd(self, p):
         p = np.asarray(p, dtype=np.float64)
@@ -432,9 +438,10 @@ def section_record(tm, cx, name, n, c2, o, nn, sub, use_kw, faces_back=True):
             lines, fidx = ix.mesh_plane(mesh, an, ao, True, loc)
         path = mesh.section(plane_normal=an, plane_origin=ao) if sub is None else \
             mesh.section(plane_normal=an, plane_origin=ao, local_faces=loc)
-        psegs = cx.back(explode(path))
+        psegs = cx.back(explode(path)) if cx.path_ok else np.zeros((0, 2, 3))
         K, (a, b) = to_grid([cx.back(np.asarray(lines).reshape((-1, 2, 3))), psegs])
-        rec.update(K=K, segs=a, psegs=b, fidx=[int(x) for x in np.asarray(fidx).ravel()], popen=open_entities(path))
+        rec.update(K=K, segs=a, psegs=b, fidx=[int(x) for x in np.asarray(fidx).ravel()], haspath=cx.path_ok,
+                   popen=open_entities(path) if cx.path_ok else 0)
         if len(rec["fidx"]) != len(a):
             raise OffLattice("face_index_length")
     return guarded(rec, run)
@@ -484,9 +491,10 @@ def multiplane_records(tm, cx, name, n, c2s, rs):
             l2 = np.asarray(lines[k], dtype=np.float64).reshape((-1, 2))
             segs = lift(l2).reshape((-1, 2, 3)) if len(l2) else np.zeros((0, 2, 3))
             p = paths[k]
-            psegs = explode(p, lifter(p.metadata["to_3D"])) if p is not None else np.zeros((0, 2, 3))
+            psegs = explode(p, lifter(p.metadata["to_3D"])) if p is not None and cx.path_ok else np.zeros((0, 2, 3))
             K, (a, b) = to_grid([cx.back(segs), cx.back(psegs)])
-            rec.update(K=K, segs=a, psegs=b, fidx=[int(x) for x in np.asarray(fidx[k]).ravel()], popen=open_entities(p))
+            rec.update(K=K, segs=a, psegs=b, fidx=[int(x) for x in np.asarray(fidx[k]).ravel()], haspath=cx.path_ok,
+                       popen=open_entities(p) if cx.path_ok else 0)
             if len(rec["fidx"]) != len(a):
                 raise OffLattice("face_index_length")
         guarded(r, run)
@@ -1031,7 +1039,9 @@ def main(argv):
     return V.finish("model_checking", cov, assumptions=[
         "lattice meshes with coordinates in 0..5; integer normals; plane offsets on the lattice and half lattice: "
         "every vertex is exactly on the plane or at least 1/(2|n|) away, so tol.merge never decides a case (the scaled "
-        "copies keep a margin of 1e-4 at scale 2^-6)",
+        "copies keep a margin of 1e-5 at scale 2^-14)",
+        "below scale 2^-7 the Path returned by section / section_multiplane is not judged (tol_path.merge = 1e-5 is an "
+        "absolute length and would decide which section vertices coincide); segments, slices and caps are",
         "scaled / translated copies use power-of-two scales and integer translations (exact in doubles); the harness maps "
         "results back with the exact inverse and TLC judges them against the lattice mesh",
         "capped slicing by two planes: the two pieces must add up to the exact volume of the capped half of the first "
